@@ -37,6 +37,26 @@ PROPS = {
         design_ref="DESIGN.md §7 C04", assumptions=[]),
 }
 
+def _b(technique, text, ref):
+    return dict(level="exploration", technique=technique, text=text, design_ref=ref, assumptions=[])
+
+
+PROPS.update({
+    "C06": _b("bounded run-time contract checking: save->load round trips of all four container types in both formats, hMETIS and HIF readers against reference readers",
+              "File I/O, json and pickle are outside the deductive engine; the round-trip contract (same type, nodes, records, weightedness, weights, all metadata; saved "
+              "object unchanged) is evaluated on an exhaustively enumerated small scope plus seeded random objects; hMETIS files are generated from a grammar, HIF documents "
+              "from the record types. Bounded, not a proof.", "DESIGN.md §7 C06"),
+    "C07": _b("bounded run-time contract checking of hash_hypergraph: equal-content history pairs hash equal, every single-element edit hashes different, hashing is pure; "
+              "the table-domain invariants the hash relies on are deductive obligations of C01-C04",
+              "Equality direction over 15 history variants per content (orders, detours through removed hyperedges and nodes), difference direction over every single edit, for all "
+              "four container types on an enumerated small scope plus random contents. SHA-256 collision resistance is assumed.", "DESIGN.md §7 C07"),
+    "C10": _b("bounded run-time contract checking of the projections and the simplicial complex against set-builder definitions",
+              "networkx-based code is outside the deductive engine; every clause of the statement is evaluated on all small hypergraphs (and directed ones) of a stated scope and on "
+              "seeded random ones, for all 12 (distance, threshold, weighted) configurations.", "DESIGN.md §7 C10"),
+    "C20": _b("bounded run-time contract checking of the centralities against networkx on independently built projections, expm, and eigen-equation residuals",
+              "Floating point and networkx delegation: bounded exploration only. CEC/HEC are judged only where an independent long-run iteration converges.", "DESIGN.md §7 C20"),
+})
+
 NOT_APPLICABLE = {
     "C17": "floating-point EM / k-means on numpy-scipy-sklearn objects: no contract within reach of the deductive engine expresses it, "
            "and both fit() methods crash on the installed SciPy (csr_array.getnnz) before any postcondition could be evaluated",
